@@ -45,6 +45,16 @@ impl Monitor for C10 {
         let epoch = c.w.current_epoch();
         let (users, total) = split(post, &fm);
         let (users0, total0) = split(pre, &fm);
+        // ---- the weight bookkeeping never stands in the way of a position operation: the floors of
+        // pieces do not add up to the floor of the whole, so subtractions must not be checked ones
+        if let Op::Fm { msg: FmMsg::ManagePosition { .. }, .. } = &step.op {
+            if let Some(e) = super::util::internal_failure(out, step, pre) {
+                return Err(viol("C10.weight_arithmetic_blocks_operation", format!("{} fails inside the contract: {e}", step.op.kind())));
+            }
+        }
+        if c.step_no % 7 == 1 {
+            super::util::derived_exits(c, post, "C10", 6)?;
+        }
         // ---- pieces bookkeeping + curve checks on accepted operations
         if out.ok() {
             // positions that grew or appeared in this step: (owner, denom, added amount, duration, is_new)
